@@ -2,3 +2,6 @@ import UmapProofs.Basic
 import UmapProofs.GraphLemmas
 import UmapProofs.GradLemmas
 import UmapProofs.AssembleLemmas
+import UmapProofs.SrcLemmas
+import UmapProofs.SrcLemmasD
+import UmapProofs.SrcLemmasE
